@@ -19,7 +19,7 @@ META = {
                   "predicates and compares per-section content tokens (stage D).",
     "level_note": "Trusted: the driver's 40-line walker (framing rule + field positions emitted by the spec), SHA-1 of Debug renderings "
                   "as content tokens, TLC. Payload bytes (heights, alpha, floats) are compared only as tokens. Auto-generated minimal "
-                  "MCNKs (0 user chunks) are compared across rounds only. MH2O: 1-3 layers per chunk, LVF 0-3, rectangles 8x8 / 2x3 / 5x8.",
+                  "MCNKs (0 user chunks) are compared across rounds only. MH2O: 1-3 layers per chunk over the product bitmap on/off x vertex data on/off x LVF 0-3 x rectangles 8x8 / 2x3@(1,2) / 5x8@(3,0) / 1x1@(7,7).",
     "technique": "TLA+ layout state machine model-checked with TLC; TLC-generated shapes replayed on the real builder/serializer/parser; "
                  "trace validation of walker observations and content tokens against the format predicates",
     "design_ref": "DESIGN.md section 5, C13-C18 recipe, C14",
@@ -28,7 +28,7 @@ META = {
 
 VERS = ["VanillaEarly", "VanillaLate", "TBC", "WotLK", "Cataclysm", "MoP"]
 SHAPE_KEYS = ["ver", "ntex", "nmdl", "nwmo", "nddf", "nmodf", "mcnk", "where", "mcvt", "mcnr", "nly", "mcrf", "mcal", "mcsh",
-              "mclq", "mccv", "mcse", "mclv", "water", "wlay", "mfbo", "mtxf", "mamp", "mtxp", "bmesh"]
+              "mclq", "mccv", "mcse", "mclv", "water", "wlay", "wbase", "mfbo", "mtxf", "mamp", "mtxp", "bmesh"]
 
 
 def sig(b):
@@ -44,6 +44,8 @@ def sig(b):
     s["roundn"] = r
     # derived class attributes used by the known findings
     s["water_on"] = rs.get("water") not in (None, "none")
+    wl = rs.get("wl") or {}
+    s["wl_bm"], s["wl_vd"], s["wl_lvf"], s["wl_rect"] = wl.get("bm"), wl.get("vd"), wl.get("lvf"), wl.get("rect")
     s["opt_last"] = rs.get("where") in ("all", "last") or rs.get("mcnk") in ("one00", "one1515")
     # is MCLQ the physically last sub-chunk of the last MCNK (nothing written after it)?
     s["mclq_ends_file"] = bool(rs.get("mclq")) and s["opt_last"] and not (rs.get("mccv") or rs.get("mcse") or rs.get("mclv")) \
@@ -115,8 +117,8 @@ def run(ctx, cases_override=None):
         "tiles_through_all_4_rebuild_rounds": full,
         "evaluations": res["events"] - res["traces"],
         "distinct_nontrivial": nontrivial,
-        "rule": "distinct shapes (25 class attributes) with at least one optional list / sub-chunk / top-level chunk populated; "
-                "one evaluation = one recorded event (Build, File with full walker observation, Parse with 24 section tokens, Rebuild) "
+        "rule": "distinct shapes (26 class attributes) with at least one optional list / sub-chunk / top-level chunk populated; "
+                "one evaluation = one recorded event (Build, File with full walker observation, Parse with 27 section tokens, Rebuild) "
                 "checked by TLC",
         "exhaustive": False,
         "failed_conjuncts": len(bad),
